@@ -128,10 +128,17 @@ def monitors(case, ji, job, real, L):
                check_order=not explicit)
         triple("C05", N.vram_start(n + "_noload"), N.vram_end(n + "_noload"), N.vram_size(n + "_noload"))
         both = s["alloc_sections"] + s["noload_sections"]
+        symcount = {}
+        for x in both:
+            symcount[N.sec_start(n, x)] = symcount.get(N.sec_start(n, x), 0) + 1
+        # a section listed twice, or two sections whose names convert to the same symbols (".text" and "text"
+        # under makerom), define their symbols twice: no claim about which definition survives
+        both = [x if symcount[N.sec_start(n, x)] == 1 else "\0dup" for x in both]
+        both = both + ["\0dup", "\0dup"]
         for part, lst in (("", s["alloc_sections"]), (".noload", s["noload_sections"])):
             for x in lst:
                 if both.count(x) != 1:
-                    continue          # a section listed twice defines its symbols twice (KF-C01-dup-list)
+                    continue
                 triple("C05", N.sec_start(n, x), N.sec_end(n, x), N.sec_size(n, x))
                 a, b = S(N.sec_start(n, x)), S(N.sec_end(n, x))
                 if a is not None and b is not None and not (vs <= a and b <= ve):
